@@ -10,6 +10,7 @@ import sys; sys.path.insert(0, '.')
 from vf import mirrors
 try:
     print('replay driver:', mirrors.build())
+    print('replay driver (miniwasm build):', mirrors.build(features=('miniwasm',)))
 except Exception as e:
     print('replay driver not built (checks still decide; violations then end no-failing-input-found):', str(e)[-300:])
 "
